@@ -8,6 +8,7 @@ import (
 	"strconv"
 	"strings"
 	"sync"
+	"time"
 
 	"github.com/tormoder/fit"
 
@@ -288,6 +289,32 @@ func buildOpPool() []poolOp {
 		decodeOp("Decode(activity, every held message type fully populated, value set A)", richA, nil, nil),
 		decodeOp("Decode(activity, every held message type fully populated, value set B)", richB, nil, nil),
 		decodeOp("Decode(unknown fields/messages whose numbers are equal modulo 256, all options)", tie, nil, allOpts),
+	)
+	// near twins: inputs that differ only in a detail that a cache with a lossy key would conflate (local-time zone
+	// offsets within the same minute, the same File encoded with a different zone)
+	localMon := func(off uint32) []byte {
+		d := fitmodel.Def{Local: 1, Global: 55, Fields: []fitmodel.FieldDef{{Num: 253, Size: 4, Base: fitmodel.Uint32}, {Num: 11, Size: 4, Base: fitmodel.Uint32}, {Num: 1, Size: 2, Base: fitmodel.Uint16}}}
+		u32 := func(v uint32) []byte { return fitmodel.PutUint(binary.LittleEndian, 4, uint64(v)) }
+		return fitmodel.File(fitmodel.DefaultHeader, append(fitmodel.FileIdRecords(0, 32), d.Bytes(),
+			fitmodel.Data(1, append(append(u32(1000000000), u32(1000000000+off)...), 7, 0)),
+			fitmodel.Data(1, append(append(u32(1000000060), u32(1000000060+off)...), 8, 0)))...)
+	}
+	localEnc := func(off int) func() *fit.File {
+		return func() *fit.File {
+			f, _ := fit.NewFile(fit.FileTypeActivity, fit.NewHeader(fit.V20, true))
+			a, _ := f.Activity()
+			m := fit.NewActivityMsg()
+			m.Timestamp = time.Unix(fitmodel.FitEpoch+1000000000, 0).UTC()
+			m.LocalTimestamp = m.Timestamp.In(time.FixedZone("FITLOCAL", off))
+			a.Activity = m
+			return f
+		}
+	}
+	pool = append(pool,
+		decodeOp("Decode(monitoring, local time 12307 s ahead of UTC)", localMon(12307), nil, nil),
+		decodeOp("Decode(monitoring, local time 12300 s ahead of UTC)", localMon(12300), nil, nil),
+		encodeOp("Encode(activity, local time 12307 s ahead)", localEnc(12307), false),
+		encodeOp("Encode(activity, local time 12300 s ahead)", localEnc(12300), true),
 	)
 	// every call also reports the digest of the profile tables afterwards
 	for i := range pool {
